@@ -505,7 +505,7 @@ def gen_meta_doc(rng):
 
 
 N_STATIC = 18
-N_TEMPLATES = 23
+N_TEMPLATES = 24
 
 
 def gen_keyed(rng):
@@ -990,6 +990,8 @@ def template_expect(k, s):
         return [("el", "div", [], [("el", "svg", [("viewbox", "0 0 1 1")],
                 [("el", "script", [], [T(tf)]), ("el", "title", [], [T(tb)]), ("el", "text", [("x", "1")], [T(tf)]),
                  ("el", "style", [], [T("a{}"), T(tf)])])])]
+    if k == 23:
+        return [("el", "math", [], [("el", "style", [], [T(tf)]), ("el", "mi", [], [T(tb)])])]
     if k == 22:
         return [("el", "svg", [], [("el", "a", [("href", ta)], [("el", "text", [], [T(tf)])]), ("el", "desc", [], [T(tb)]),
                                    ("el", "g", [("class", "c")], [("el", "text", [], [T("k")])])])]
@@ -1289,6 +1291,11 @@ def oracle(item, impl):
         if want is None:
             return None
         want = canon(want)
+        if case[1] == 23:
+            # (the placeholder for an empty text is not this property's concern)
+            def noblank(ns):
+                return [("el", n[1], n[2], noblank(n[3])) if n[0] == "el" else n for n in ns if n != ("text", " ")]
+            want, got = noblank(want), noblank(got)
         if case[1] == 16:
             got = [("el", n[1], [(a, " ".join(sorted(v.split())) if a == "class" else v) for a, v in n[2]], n[3])
                    if n[0] == "el" else n for n in got]
@@ -1317,6 +1324,8 @@ def classify(item, impl, model):
             return "F-C06-b"
     if case[0] == 8 and grid_breakout(case[1], case[2]):
         return "F-C06-b"
+    if case[0] == 4 and case[1] == 23 and any(c in s_of(case[2]) for c in "<&"):
+        return "F-C06-j"
     return None
 
 
